@@ -219,6 +219,53 @@ pub fn h_c06_concat_percent() {
     reach("C06.concat_percent");
 }
 
+/// the rest of the property's function list on the number menu
+const MORE: [&str; 7] = ["=ABS(A1)", "=MIN(A1:B1)", "=MAX(A1:B1)", "=AVERAGE(A1:B1)", "=ROUND(A1,0)", "=LEN(A1)", "=CONCAT(A1,B1)"];
+const ROUNDED: [f64; 5] = [0.0, 2.0, -2.0, 1e200, 4.0];
+pub fn h_c06_more_functions() {
+    let (k1, k2) = (any_u8(), any_u8());
+    assume((k1 < 5) & (k2 < 5));
+    let (i, j, b1, b2) = (any_usize_to(NUMS.len() - 1), any_usize_to(NUMS.len() - 1), any_bool(), any_bool());
+    let (x, y) = (NUMS[i], NUMS[j]);
+    let f = any_usize_to(MORE.len() - 1);
+    // 1e200 prints in scientific notation / goes through the decimal rounding kernel: not executed
+    if f >= 4 { assume((i != 3) & (j != 3)); }
+    let entered = model_with(k1, x, b1, k2, y, b2, MORE[f]);
+    check("C06.more_functions.entered", entered.is_some());
+    let model = match entered { Some(m) => m, None => return };
+    let got = model.get_cell_value_by_index(0, 1, 3);
+    let num = |v: f64| CellValue::Number(v);
+    let text = |k: u8, n: usize, b: bool| -> Result<String, &'static str> {
+        if k == 0 { Ok(NUM_TEXT[n].to_string()) } else if k == 1 { Ok(if b { "TRUE".to_string() } else { "FALSE".to_string() }) }
+        else if k == 2 { Ok("".to_string()) } else if k == 3 { Ok("abc".to_string()) } else { Err("#N/A") }
+    };
+    let any_error = k1 == 4 || k2 == 4;
+    let want = if f == 0 {
+        match as_number(k1, x, b1) { Ok(a) => num(a.abs()), Err(e) => err(e) }
+    } else if f == 1 || f == 2 {
+        // over a range only numbers count; no number at all gives 0
+        if any_error { err("#N/A") } else {
+            let (n1, n2) = (k1 == 0, k2 == 0);
+            if n1 && n2 { num(if f == 1 { if x < y { x } else { y } } else if x > y { x } else { y }) }
+            else if n1 { num(x) } else if n2 { num(y) } else { num(0.0) }
+        }
+    } else if f == 3 {
+        if any_error { err("#N/A") } else {
+            let (n1, n2) = (k1 == 0, k2 == 0);
+            if n1 && n2 { let r = (x + y) / 2.0; if r.is_finite() { num(r) } else { err("#NUM!") } }
+            else if n1 { num(x) } else if n2 { num(y) } else { err("#DIV/0!") }
+        }
+    } else if f == 4 {
+        match as_number(k1, x, b1) { Ok(_) => num(if k1 == 0 { ROUNDED[i] } else if k1 == 1 && b1 { 1.0 } else { 0.0 }), Err(e) => err(e) }
+    } else if f == 5 {
+        match text(k1, i, b1) { Ok(t) => num(t.len() as f64), Err(e) => err(e) }
+    } else {
+        match (text(k1, i, b1), text(k2, j, b2)) { (Ok(a), Ok(b)) => CellValue::String(format!("{}{}", a, b)), (Err(e), _) => err(e), (_, Err(e)) => err(e) }
+    };
+    check("C06.more_functions.value", got == Ok(want));
+    reach("C06.more_functions");
+}
+
 // ---- C05: values are consistent with inputs, cycles are #CIRC!
 pub fn h_c05_chain_and_cycle() {
     let x = any_f64_finite();
